@@ -38,18 +38,19 @@ TRUSTED = [
     "C18 simulated kernel (Lean Model/C18.lean §1 and the independent Python recorders): setpriority clamping, ioprio_check_cap of Linux 6.x (class = bits 13..15 masked with 7, level = bits 0..2, stored as unsigned short), sched_setaffinity = intersection with the cpuset / EINVAL when empty, do_prlimit order of checks; validated on every run against the live kernel (part b), not verified",
     "C18 native layer in part (a) is replaced by recorders: the C packing/unpacking and the cpu_set_t loop run only in part (b); glibc CPU_SET drops values outside 0..1023; CPython resource.prlimit turns EINVAL into ValueError and uses two's complement for rlim_t",
     "C18 errno protocol: getpriority(2)/ioprio_get(2)/sched_getaffinity(2) write errno only on failure and return -1 then; PyArg_ParseTuple between `errno = 0` and the call does not touch errno; in the live run the harness leaves ENOENT in the thread's errno before every call (os.stat of a missing path) and tells the model errno = 2 — that nothing in between resets it is not verified (seeded C18-1 shows it reaches the C code in plain mode)",
+    "C18 /proc/stat: one cpuN line per ONLINE CPU (fs/proc/stat.c: for_each_online_cpu), so len(per_cpu_times()) can be smaller than the highest CPU id + 1; lxcfs-style virtualisation may show any smaller set; in the sim part the file is written by the harness, in the live part (live-hole) it is the real file minus one cpuN line behind a symlinked PROCFS_PATH",
     "C18 oneshot block: the status file is cached when the harness's warm-up first reads it (num_threads), so the model is told the mask at block entry",
     "C18 /proc/<pid>/status: `Cpus_allowed_list` is the task's current mask printed as a range list (%*pbl); the harness renderer is checked against the live kernel on every run",
 ]
 MANIFEST = {
-    "level_text": "Machine-checked Lean 4 proofs over a four-layer model (simulated kernel, native layer with the translator's IOPRIO_CLASS_SHIFT, _pslinux.Process under wrap_exceptions, psutil.Process): ioprio pack/unpack round-trip for every class < 8 and data < 8192; one refinement theorem C18_refines (for EVERY kernel state, process and request, whenever the specification promises an outcome the model produces exactly that outcome and that kernel) with the named corollaries set-then-get for nice/ionice/cpu_affinity/rlimit on every valid value, other processes and other attributes unchanged, the listed invalid requests raise ValueError with an empty effect log, cpu_affinity([]) selects all eligible CPUs, duplicates and order are irrelevant, the get form is sorted and duplicate-free. The native getters take the C errno on entry as an input (translator facts: is errno cleared, which failure test): C18_nice_get_exact / C18_ionice_get_exact / C18_affinity_get_exact hold for every kernel value (nice -1 included) and every entry errno, C18_context_irrelevant carries every theorem over to calls made in any execution context (entry errno; status file cached by oneshot()), with proved counterexamples for the three broken errno protocols (C18_stale_errno_counterexample) and for the stale status file (C18_oneshot_stale_status_counterexample). C18_invalid_cpus_repaired: with the proposed EINVAL->ValueError fall-through (a translator fact) the only-unusable-CPU statement holds at full strength in every context. C18_refines_any_context: under that repair the refinement holds for every request in every context with no excluded region. rlimit: RLIM_INFINITY conversion round trip, soft > hard and resource out of range give ValueError with the kernel unchanged. Proved counterexamples for the unfixed front end (empty list after the mask was narrowed to a range) and for the known finding (only-ineligible CPU list answered with OSError). Tied to the code by translator facts (shift and macro shapes from C, level bounds, class set, enum members, pair length, PID-0 refusal, front-end rules) feeding the proof obligation cfg_good, by an exhaustive differential run against a simulated kernel over a fake procfs, and by a live run on spawned child processes through the freshly built extension; every call of the correspondence is made in a call mode drawn at random (plain, fresh oneshot, warm oneshot, as_dict, process_iter object, process_iter(attrs).info, second call, whole history inside one warm oneshot block) and the modes are enumerated completely on a small sub-domain.",
-    "level_note": "Trusted: Lean kernel + {propext, Classical.choice, Quot.sound}; translator; correspondence harness; the simulated kernel's rules (validated live on this kernel only; ioprio class masking is that of Linux >= 6.x); CPUs 0..ncpu-1 all online; privilege failures other than CAP_SYS_RESOURCE/nr_open are not modelled; PID reuse guard is C01's.",
+    "level_text": "Machine-checked Lean 4 proofs over a four-layer model (simulated kernel, native layer with the translator's IOPRIO_CLASS_SHIFT, _pslinux.Process under wrap_exceptions, psutil.Process): ioprio pack/unpack round-trip for every class < 8 and data < 8192; one refinement theorem C18_refines (for EVERY kernel state, process and request, whenever the specification promises an outcome the model produces exactly that outcome and that kernel) with the named corollaries set-then-get for nice/ionice/cpu_affinity/rlimit on every valid value, other processes and other attributes unchanged, the listed invalid requests raise ValueError with an empty effect log, cpu_affinity([]) selects all eligible CPUs, duplicates and order are irrelevant, the get form is sorted and duplicate-free. The native getters take the C errno on entry as an input (translator facts: is errno cleared, which failure test): C18_nice_get_exact / C18_ionice_get_exact / C18_affinity_get_exact hold for every kernel value (nice -1 included) and every entry errno, C18_context_irrelevant carries every theorem over to calls made in any execution context (entry errno; status file cached by oneshot()), with proved counterexamples for the three broken errno protocols (C18_stale_errno_counterexample) and for the stale status file (C18_oneshot_stale_status_counterexample). C18_invalid_cpus_repaired: with the EINVAL->ValueError fall-through (a translator fact; landed) the only-unusable-CPU statement holds at full strength in every context. C18_refines_any_context: under that repair the refinement holds for every request in every context with no excluded region. rlimit: RLIM_INFINITY conversion round trip, soft > hard and resource out of range give ValueError with the kernel unchanged. With fix aebc260 landed (EINVAL -> ValueError after the diagnosis loop; obligation cfg_einval_is_valueError) the statements hold for the code as it is with no excluded region and no open finding: C18_invalid_cpus, C18_refines_code. The world is general about CPU numbering: possible ids 0..ncpu-1, any set of them online/in the cpuset (holes allowed), and the number of cpuN lines of /proc/stat (len(per_cpu_times())) is an independent parameter <= ncpu; C18_empty_selects_all_eligible and C18_refines_code hold in all such worlds for the range(1024) request (translator facts emptyAffinityRange / emptyAffinityUsesStatCount, consumed by cfg_good), C18_empty_count_counterexample shows that the range(len(per_cpu_times())) request (seeded C18-2) leaves out eligible CPUs when a CPU in the middle is offline and fails in a container with a virtualised /proc/stat, C18_valid_cpu_beyond_stat_lines that a valid CPU id >= the number of lines is accepted. Proved counterexamples for the superseded shapes of the code: the empty list resolved through the status file (C18_empty_needs_full_mask), the only-ineligible CPU list answered with OSError before the fix (C18_invalid_cpus_counterexample(X)). Tied to the code by translator facts (shift and macro shapes from C, level bounds, class set, enum members, pair length, PID-0 refusal, front-end rules) feeding the proof obligation cfg_good, by an exhaustive differential run against a simulated kernel over a fake procfs, and by a live run on spawned child processes through the freshly built extension; every call of the correspondence is made in a call mode drawn at random (plain, fresh oneshot, warm oneshot, as_dict, process_iter object, process_iter(attrs).info, second call, whole history inside one warm oneshot block) and the modes are enumerated completely on a small sub-domain.",
+    "level_note": "Trusted: Lean kernel + {propext, Classical.choice, Quot.sound}; translator; correspondence harness; the simulated kernel's rules (validated live on this kernel only; ioprio class masking is that of Linux >= 6.x); a cpuset is given as cpuset-and-online (the simulated sched_setaffinity intersects with it); /proc/stat shows at most ncpu cpuN lines; privilege failures other than CAP_SYS_RESOURCE/nr_open are not modelled; PID reuse guard is C01's.",
     "technique": "Lean 4 refinement proof by case analysis over requests + bit-arithmetic lemmas + errno-protocol model of the native getters + translator-fed proof obligation + exhaustive differential correspondence (simulated kernel) in randomised call modes + live differential run with a poisoned errno",
     "design_ref": "DESIGN.md §5 C18",
 }
 ASSUMPTIONS = [
     "the process exists for the whole call and PID != 0 (Process(0) does not exist on Linux; rlimit's PID-0 refusal is modelled and checked)",
-    "CPUs 0..ncpu-1 are all online and ncpu <= 1024 (CPU_SETSIZE of the fixed cpu_set_t in proc.c)",
+    "possible CPU ids are 0..ncpu-1 with ncpu <= 1024 (CPU_SETSIZE of the fixed cpu_set_t in proc.c); which of them are online / in the cpuset is arbitrary; /proc/stat has at most ncpu cpuN lines (one per online CPU, or fewer when virtualised)",
     "requests are ints / lists of ints (other Python types raise TypeError before any native call and are not modelled)",
 ]
 
@@ -208,9 +209,26 @@ def _front_facts(tree):
         if isinstance(s, ast.If) and isinstance(s.test, ast.UnaryOp) and isinstance(s.test.op, ast.Not) \
                 and extract.dotted(s.test.operand) == "cpus":
             empty = s
-    if empty is None or not empty.body or not isinstance(empty.body[0], ast.If):
+    if empty is None or not empty.body:
         raise NotRecognised("empty-list branch of cpu_affinity")
     first = empty.body[0]
+    count_shapes = ("tuple(range(len(cpu_times(percpu=True))))", "list(range(len(cpu_times(percpu=True))))",
+                    "range(len(cpu_times(percpu=True)))")
+    out["empty_count"] = False
+    if len(empty.body) == 1 and isinstance(first, ast.Assign) and extract.dotted(first.targets[0]) == "cpus":
+        # no platform test: one request shape for every platform (seeded C18-2)
+        v = extract.unparse(first.value).replace(" ", "").replace('"', "'")
+        mm = re.fullmatch(r"(?:list\(|tuple\()?range\((\d+)\)\)?", v)
+        if v in count_shapes:
+            out["empty_count"] = True
+            out["empty_range"] = None
+        elif mm:
+            out["empty_range"] = int(mm.group(1))
+        else:
+            raise NotRecognised("empty-list request: %s" % v)
+        return out
+    if not isinstance(first, ast.If):
+        raise NotRecognised("empty-list branch of cpu_affinity")
     t = extract.unparse(first.test).replace(" ", "")
     if t in ("hasattr(self._proc,'_get_eligible_cpus')", 'hasattr(self._proc,"_get_eligible_cpus")'):
         if not extract.calls_in(first, "_get_eligible_cpus"):
@@ -220,10 +238,15 @@ def _front_facts(tree):
         a = first.body[-1]
         if not (isinstance(a, ast.Assign) and extract.dotted(a.targets[0]) == "cpus"):
             raise NotRecognised("LINUX empty-list branch")
-        mm = re.fullmatch(r"(?:list\(|tuple\()?range\((\d+)\)\)?", extract.unparse(a.value).replace(" ", ""))
-        if not mm:
-            raise NotRecognised("LINUX empty-list branch value: %s" % extract.unparse(a.value))
-        out["empty_range"] = int(mm.group(1))
+        v = extract.unparse(a.value).replace(" ", "").replace('"', "'")
+        mm = re.fullmatch(r"(?:list\(|tuple\()?range\((\d+)\)\)?", v)
+        if v in count_shapes:
+            out["empty_count"] = True
+            out["empty_range"] = None
+        elif mm:
+            out["empty_range"] = int(mm.group(1))
+        else:
+            raise NotRecognised("LINUX empty-list branch value: %s" % v)
     else:
         raise NotRecognised("empty-list branch test: %s" % t)
     return out
@@ -427,6 +450,8 @@ def facts(snap, F):
               "Process.ionice(value=…) without ioclass raises ValueError")
     F.try_add("emptyAffinityRange", "Option Nat", lambda: extract.lean_opt(fr()["empty_range"], extract.lean_nat),
               "cpu_affinity([]) on Linux: `some n` = asks the kernel for CPUs 0..n-1; `none` = uses _get_eligible_cpus() (the current mask of /proc/pid/status)")
+    F.try_add("emptyAffinityUsesStatCount", "Bool", lambda: extract.lean_bool(fr()["empty_count"]),
+              "cpu_affinity([]) on Linux asks for range(len(cpu_times(percpu=True))): CPUs 0..N-1, N = number of cpuN lines of /proc/stat (misses eligible CPUs with id >= N: offline CPU in the middle, virtualised /proc/stat)")
     F.try_add("affinityGetSortedSet", "Bool", lambda: extract.lean_bool(fr()["get_sorted_set"]),
               "cpu_affinity() returns sorted(set(...)) of the native result")
     F.try_add("affinitySetDedup", "Bool", lambda: extract.lean_bool(fr()["set_dedup"]),
@@ -484,6 +509,7 @@ class Sim:
         self.native_range = native_range
         self.self_pid = world["self"]
         self.ncpu = world["ncpu"]
+        self.online = list(world.get("online", range(world["ncpu"])))
         self.nr_open = world["nr_open"]
         self.cap = world["cap"]
         self.order = [p["pid"] for p in world["procs"]]
@@ -555,7 +581,7 @@ class Sim:
             if 0 <= v < 1024:
                 mask.add(v)
         p, st = self._task(pid)
-        g = [c for c in range(self.ncpu) if c in mask and c in st["cpuset"]]
+        g = [c for c in sorted(self.online) if c in mask and c in st["cpuset"]]      # cpus_allowed & online & request
         if not g:
             raise _oserr(OSError, errno.EINVAL)
         st["affinity"] = g
@@ -794,12 +820,14 @@ class SimImpl:
 
     def begin(self, world):
         self.sim = Sim(world, on_affinity=self._write_status, native_range=self.native_range)
-        if world["ncpu"] != self.cur_ncpu:
+        ids = tuple(stat_ids(world))
+        if ids != self.cur_ncpu:
+            # one cpuN line per ONLINE CPU (ids with holes), or whatever a virtualised procfs shows
             rows = ["cpu  10 0 10 100 0 0 0 0 0 0"]
-            rows += ["cpu%d 1 0 1 10 0 0 0 0 0 0" % i for i in range(world["ncpu"])]
+            rows += ["cpu%d 1 0 1 10 0 0 0 0 0 0" % i for i in ids]
             rows += ["intr 0", "ctxt 0", "btime 1700000000", "processes 1", "procs_running 1", "procs_blocked 0"]
             self.fp.write("stat", "\n".join(rows) + "\n")
-            self.cur_ncpu = world["ncpu"]
+            self.cur_ncpu = ids
         for pid in self.sim.order:
             if not os.path.exists(self.fp.path("%d/stat" % pid)):
                 self.fp.write("%d/stat" % pid, b"%d (psv-c18)" % pid + self.stat_tail)
@@ -847,20 +875,36 @@ class SimImpl:
 DEFAULT_RL = [[1000 + 10 * r, 5000 + 10 * r] for r in range(16)]
 
 
-def mk_proc(pid, nice=0, ioprio=0, affinity=None, cpuset=None, rlimits=None, ncpu=4):
-    cpuset = list(range(ncpu)) if cpuset is None else list(cpuset)
-    el = [c for c in range(ncpu) if c in cpuset]
+def stat_ids(world):
+    """CPU ids that have a cpuN line in /proc/stat: the online CPUs unless the world virtualises the file."""
+    if world.get("stat_ids") is not None:
+        return list(world["stat_ids"])
+    return sorted(world.get("online", range(world["ncpu"])))
+
+
+def mk_proc(pid, nice=0, ioprio=0, affinity=None, cpuset=None, rlimits=None, ncpu=4, online=None):
+    online = list(range(ncpu)) if online is None else sorted(online)
+    cpuset = list(online) if cpuset is None else list(cpuset)
+    el = [c for c in online if c in cpuset]
     return {"pid": pid, "nice": nice, "ioprio": ioprio,
             "affinity": list(el if affinity is None else affinity), "cpuset": cpuset,
             "rlimits": [list(x) for x in (rlimits or DEFAULT_RL)]}
 
 
-def mk_world(ncpu=4, cap=True, nr_open=1048576, **target):
-    return {"self": SELF_PID, "ncpu": ncpu, "nr_open": nr_open, "cap": cap,
-            "procs": [mk_proc(T_PID, ncpu=ncpu, **target),
-                      mk_proc(S_PID, ncpu=ncpu, nice=3, ioprio=(2 << 13) | 5,
-                              rlimits=[[7 + r, INF] for r in range(16)]),
-                      mk_proc(SELF_PID, ncpu=ncpu, nice=-1, ioprio=(1 << 13) | 2)]}
+def mk_world(ncpu=4, cap=True, nr_open=1048576, online=None, stat=None, **target):
+    """ncpu = possible CPU ids 0..ncpu-1; online = the online ones (holes allowed; default all); stat = ids shown
+    by a virtualised /proc/stat (default: one cpuN line per online CPU). cpusets are subsets of `online`."""
+    w = {"self": SELF_PID, "ncpu": ncpu, "nr_open": nr_open, "cap": cap,
+         "procs": [mk_proc(T_PID, ncpu=ncpu, online=online, **target),
+                   mk_proc(S_PID, ncpu=ncpu, online=online, nice=3, ioprio=(2 << 13) | 5,
+                           rlimits=[[7 + r, INF] for r in range(16)]),
+                   mk_proc(SELF_PID, ncpu=ncpu, online=online, nice=-1, ioprio=(1 << 13) | 2)]}
+    if online is not None or stat is not None:
+        w["online"] = sorted(online) if online is not None else list(range(ncpu))
+        if stat is not None:
+            w["stat_ids"] = list(stat)
+        w["stat_cpus"] = len(stat_ids(w))
+    return w
 
 
 def R_nice(v=None):
@@ -924,6 +968,26 @@ def exhaustive_histories(tier):
                         cpus = cpus + ex
                     yield "affinity", mk_world(ncpu=ncpu, cpuset=cpuset, affinity=aff), \
                         [op(T_PID, R_aff(cpus)), op(T_PID, R_aff())]
+    # worlds whose /proc/stat does not number the CPUs 0..N-1: an offline CPU in the middle, a virtualised file
+    holes = [dict(ncpu=4, online=[0, 1, 3]), dict(ncpu=4, online=[0, 1, 3], cpuset=[1, 3]),
+             dict(ncpu=6, online=[1, 2, 4, 5]), dict(ncpu=6, online=[0, 2, 3, 4, 5], cpuset=[4, 5]),
+             dict(ncpu=6, stat=[0, 1], cpuset=[4, 5]), dict(ncpu=6, stat=[0, 1]), dict(ncpu=4, stat=[0]),
+             dict(ncpu=6, online=[0, 1, 2, 3, 5], stat=[0, 1, 2, 3], cpuset=[2, 3, 5])]
+    for kw in holes:
+        on = kw.get("online", list(range(kw["ncpu"])))
+        el = [c for c in on if c in kw.get("cpuset", on)]
+        masks = [None, el[:1], el[-1:]]
+        for aff in masks:
+            for n in range(0, kw["ncpu"] + 1):
+                for sub in itertools.combinations(range(kw["ncpu"]), n):
+                    if n > 2 and tier == "quick" and (len(sub) + sub[0]) % 3:
+                        continue
+                    for ex in (None, [kw["ncpu"]], [-1]):
+                        if ex is not None and n > 1:
+                            continue
+                        yield "holes", mk_world(affinity=aff, **kw), \
+                            [op(T_PID, R_aff(list(sub) + (ex or []))), op(T_PID, R_aff()), op(T_PID, R_aff([])),
+                             op(T_PID, R_aff())]
     for big in ([2**63], [0, 2**63], [-2**63 - 1], [2**63 - 1], [-2**63]):
         yield "affinity", mk_world(ncpu=4), [op(T_PID, R_aff(big)), op(T_PID, R_aff())]
     # rlimit: every resource with soft <= hard incl. RLIM_INFINITY, and the invalid neighbours
@@ -945,17 +1009,24 @@ def exhaustive_histories(tier):
 
 def gen_world(rng):
     ncpu = rng.choice([1, 2, 3, 4, 6, 8])
+    online = stat = None
+    r = rng.random()
+    if ncpu >= 3 and r < 0.3:
+        online = sorted(rng.sample(range(ncpu), rng.randrange(1, ncpu)))          # offline CPUs anywhere
+    elif ncpu >= 2 and r < 0.4:
+        stat = list(range(rng.randrange(1, ncpu)))                                # virtualised /proc/stat
+    base = list(range(ncpu)) if online is None else online
     cpuset = None
     if rng.random() < 0.4:
-        cpuset = sorted(rng.sample(range(ncpu), rng.randrange(1, ncpu + 1)))
-    el = list(range(ncpu)) if cpuset is None else cpuset
+        cpuset = sorted(rng.sample(base, rng.randrange(1, len(base) + 1)))
+    el = list(base) if cpuset is None else cpuset
     aff = sorted(rng.sample(el, rng.randrange(1, len(el) + 1)))
     rl = []
     for _ in range(16):
         h = rng.choice([INF, rng.randrange(0, 10**6), 2**63 - 1])
         s = rng.choice([h, rng.randrange(0, h + 1) if h < INF else rng.randrange(0, 10**6)])
         rl.append([min(s, h), h])
-    return mk_world(ncpu=ncpu, cap=rng.random() < 0.5, cpuset=cpuset, affinity=aff,
+    return mk_world(ncpu=ncpu, online=online, stat=stat, cap=rng.random() < 0.5, cpuset=cpuset, affinity=aff,
                     nice=rng.randrange(-20, 20), ioprio=rng.choice([0, (1 << 13) | rng.randrange(8),
                                                                    (2 << 13) | rng.randrange(8), 3 << 13]),
                     rlimits=rl)
@@ -1152,6 +1223,10 @@ def check_sim(ctx, res, impl, hists):
                     break
             for f in feats:
                 res.count("feature:" + f)
+            if h["world"].get("stat_ids") is not None:
+                res.count("world:virtualised /proc/stat (cpuN lines unrelated to the cpuset)")
+            elif h["world"].get("online") is not None and h["world"]["online"] != list(range(h["world"]["ncpu"])):
+                res.count("world:offline CPU (fewer cpuN lines than highest id + 1)")
             res.count("ops", len(h["ops"]))
             res.case((h["world"], h["ops"], h.get("block")), nontrivial=any(":set" in f for f in feats),
                      sample={"family": h["tag"], "ops": h["ops"], "impl_last": rows[-1][0]["out"]}
@@ -1337,12 +1412,47 @@ def live_block_ops(env, st):
     return ops
 
 
-def run_live(ctx, res, live, env, T, S, ops, tag, block):
+def hole_procfs(hidden):
+    """A procfs directory that is the real one except that `stat` lacks the cpuN line of CPU `hidden` (what an
+    offline CPU looks like). Returns (path, number of cpuN lines left)."""
+    import tempfile
+    tmp = tempfile.mkdtemp(prefix="psv-c18-procfs-")
+    for name in os.listdir("/proc"):
+        if name != "stat":
+            try:
+                os.symlink(os.path.join("/proc", name), os.path.join(tmp, name))
+            except OSError:
+                pass
+    n = 0
+    with open("/proc/stat", "rb") as f, open(os.path.join(tmp, "stat"), "wb") as g:
+        for line in f.read().splitlines(True):
+            if line.startswith(b"cpu%d " % hidden):
+                continue
+            if re.match(rb"cpu\d+ ", line):
+                n += 1
+            g.write(line)
+    return tmp, n
+
+
+def live_hole_ops(env, st):
+    """cpu_affinity on the live child while /proc/stat lacks the line of one CPU that is not the last one: the empty
+    list must still select ALL eligible CPUs, a valid CPU whose id is >= the number of lines must be accepted."""
+    T, E, ncpu = st["pid"], env["eligible"], env["ncpu"]
+    ops = [op(T, R_aff([E[0]])), op(T, R_aff([])), op(T, R_aff()),
+           op(T, R_aff([E[-1]])), op(T, R_aff()), op(T, R_aff([E[-1], E[0]])), op(T, R_aff()),
+           op(T, R_aff([ncpu])), op(T, R_aff([ncpu - 1, ncpu])) if E[-1] == ncpu - 1 else op(T, R_aff()),
+           op(T, R_aff([E[1]])), op(T, R_aff([])), op(T, R_aff()), op(T, R_nice()), op(T, R_ionice()), op(T, R_rl(0))]
+    return ops
+
+
+def run_live(ctx, res, live, env, T, S, ops, tag, block, stat_cpus=None):
     """One history on the live child: every call compared with the Lean model run on the state captured from the
     OS (and with the spec), in the call mode of the op; with `block`, inside one warm `oneshot()`."""
     ps = ctx.psutil
     st0 = [live.os_state(T, env["eligible"]), live.os_state(S, env["eligible"])]
     world = {"self": os.getpid(), "ncpu": env["ncpu"], "nr_open": env["nr_open"], "cap": env["cap"], "procs": st0}
+    if stat_cpus is not None:
+        world["stat_cpus"] = stat_cpus
     hist = {"world": world, "ops": ops, "mode": "live", "tag": tag}
     lines = [dict(world, op="reset")]
     for o in ops:
@@ -1436,6 +1546,29 @@ def check_live(ctx, res):
             n, ok = run_live(ctx, res, live, env, T, S, live_block_ops(env, live.os_state(T, env["eligible"])),
                              "live-block", block=True)
             done += n
+        if ok and len(env["eligible"]) >= 3 and env["eligible"][-1] == env["ncpu"] - 1:
+            # the same child seen through a procfs whose /proc/stat lacks the cpuN line of a CPU that is not the last
+            # one (seeded C18-2): len(per_cpu_times()) = ncpu - 1 while CPU ids go up to ncpu - 1
+            old_path = ps.PROCFS_PATH
+            tmp = None
+            try:
+                tmp, nlines = hole_procfs(env["eligible"][0])
+                ps.PROCFS_PATH = tmp
+                if len(ps._pslinux.per_cpu_times()) == nlines == env["ncpu"] - 1:
+                    hops = live_hole_ops(env, live.os_state(T, env["eligible"]))
+                    hops = [dict(o, mode=ctx.rng.choice(["plain", "oneshot", "oneshot-warm", "second", "as_dict"]))
+                            for o in hops]
+                    n, ok = run_live(ctx, res, live, env, T, S, hops, "live-hole", block=False, stat_cpus=nlines)
+                    done += n
+                else:
+                    res.notes.append("live-hole skipped: fake procfs shows %d cpuN lines" % len(ps._pslinux.per_cpu_times()))
+            except OSError as e:
+                res.notes.append("live-hole skipped: cannot build the fake procfs (%s)" % e)
+            finally:
+                ps.PROCFS_PATH = old_path
+                if tmp:
+                    import shutil
+                    shutil.rmtree(tmp, ignore_errors=True)
     finally:
         live.close()
     return done
@@ -1450,6 +1583,9 @@ CORPUS = [
     # only-ineligible CPU while the status line is not a range (known finding region)
     ("corpus", mk_world(ncpu=4, cpuset=[0, 1], affinity=[0]), [op(T_PID, R_aff([2])), op(T_PID, R_aff())]),
     ("corpus", mk_world(ncpu=4, cpuset=[0, 1], affinity=[0, 1]), [op(T_PID, R_aff([2])), op(T_PID, R_aff())]),
+    # /proc/stat with a hole (CPU 2 offline) / virtualised: cpu_affinity([]) must still select ALL eligible CPUs (seeded C18-2)
+    ("corpus", mk_world(ncpu=4, online=[0, 1, 3], affinity=[0]), [op(T_PID, R_aff([])), op(T_PID, R_aff())]),
+    ("corpus", mk_world(ncpu=6, stat=[0, 1], cpuset=[4, 5], affinity=[4]), [op(T_PID, R_aff([])), op(T_PID, R_aff())]),
     ("corpus", mk_world(), [op(T_PID, R_ionice(None, 3)), op(T_PID, R_ionice(3, 1)), op(T_PID, R_ionice(2, 8)),
                             op(T_PID, R_ionice(2, 7)), op(T_PID, R_ionice())]),
 ]
@@ -1460,7 +1596,7 @@ def correspond(ctx, res):
     try:
         res.rule = ("histories = initial kernel state of three processes + 1..6 public calls; exhaustive "
                     "families (nice, ionice class x level, all CPU subsets of <= 6 CPUs with duplicates and "
-                    "out-of-range entries over 9 mask/cpuset configurations, every RLIMIT_* x limit pairs x "
+                    "out-of-range entries over 9 mask/cpuset configurations and over 8 worlds with offline CPUs / a virtualised /proc/stat, every RLIMIT_* x limit pairs x "
                     "CAP_SYS_RESOURCE, PID 0) + PRNG histories (VERIF_SEED) + one live history on a spawned "
                     "child; every call is made in a call mode (see mode:* counts) which the model ignores; "
                     "non-trivial = contains a set form; distinct = distinct (state, calls with modes, block)")
